@@ -329,6 +329,36 @@ async def part_caller(flavor, case, J):
                 await guarded(flavor, api.close_pool)
 
 
+async def part_scheme(flavor, case, J):
+    """A URL whose scheme the pool cannot serve: UnsupportedProtocol (the one documented class outside the four families),
+    raised before anything touches the network - through the plain pool, a forwarding / tunnelling proxy and SOCKS."""
+    cnt = J.cnt
+    for proxy in (None, {"url": "http://proxy.test:3128"}, {"url": "socks5://socks.test:1080"}):
+        for url in ("ftp://o.test/x", "//o.test/x", "o.test/x", "/just/a/path", "gopher://o.test:70/", "HTTPX://o.test/"):
+            net = simnet.Net()
+            net.log_events = False
+            endpoints.Origin(net, "o.test", 80)
+            pool = mk_pool(flavor, net, proxy=proxy)
+            api = API(flavor, pool, net)
+            out = await guarded(flavor, lambda: api.request("GET", url))
+            cnt["inputs"] += 1
+            cnt["oracle_documented"] += 1
+            cnt["unsupported_scheme_inputs"] = cnt.get("unsupported_scheme_inputs", 0) + 1
+            ctx = {"flavor": flavor, "url": url, "proxy": proxy and proxy["url"]}
+            J.sigs.add(f"scheme|{url}|{proxy and proxy['url']}|{out.kind if out.kind != 'exc' else type(out.exc).__name__}")
+            if out.kind != "exc":
+                J.v("unsupported-scheme-accepted", f"{url!r}: {out!r}", ctx)
+            elif not isinstance(out.exc, httpcore.UnsupportedProtocol):
+                J.v(f"unsupported-scheme:wrong-class:{exc_name(out.exc)}", f"{url!r}: {out.exc!r}", ctx)
+            else:
+                cnt["oracle_class"] += 1
+            if net.transports:
+                J.v("unsupported-scheme-touched-the-network", f"{url!r}: {len(net.transports)} connection(s) opened", ctx)
+            if "Requests: 0 active, 0 queued" not in repr(pool):
+                J.v("unsupported-scheme-left-request-counted", repr(pool), ctx)
+            await guarded(flavor, api.close_pool)
+
+
 async def part_backend(flavor, case, J):
     """Injected back-end exceptions at every operation (types from the scenario matrix)."""
     from ..scenarios import run_injected, applicable_faults, post_checks
@@ -446,7 +476,7 @@ def part_realsock(flavor, case, J):
                 J.v(f"wrong-class:realsock:{backend}:{b}:{type(exc).__name__}", f"{b}: {exc!r}; expected one of {[w.__name__ for w in want]}", ctx)
 
 
-PARTS = {"realsock": part_realsock, "h1": part_h1, "h2": part_h2, "socks": part_socks, "connect": part_connect, "caller": part_caller,
+PARTS = {"realsock": part_realsock, "h1": part_h1, "h2": part_h2, "socks": part_socks, "connect": part_connect, "caller": part_caller, "scheme": part_scheme,
          "backend": part_backend, "workload": part_workload}
 
 
@@ -484,6 +514,7 @@ def plan(tier, seed):
             k += 1
     for f in flavors:
         cases.append({"part": "caller", "flavor": f, "seed": 0})
+        cases.append({"part": "scheme", "flavor": f, "seed": 0})
     for be in ("sync", "anyio", "trio"):
         cases.append({"part": "realsock", "flavor": "sync", "backend": be, "seed": 0})
     for i, ctype in enumerate(TYPES):
